@@ -10,7 +10,8 @@ open RedunModel RedunModel.Timing
      fork (tbl ...) (a i<task> i<arg>) (b i<task> i<arg>) <seen T|F>
          main() = cond(fork_thread(<a>), <b>, <b>);  seen: the forked job had ended when main resolved
    reply:  [dup ]<value> || <row> ; <row> ; ...   (rows of the call graph, pre-images; the harness sorts;
-           `dup`: some task function returned two equal sub-expressions, see `hasDup` in the model)
+           `dup`: some task function returned two equal sub-expressions; the reply is then computed with the
+           per-parent expression memo `evalM` (`_pending_expr`) instead of `evalC`)
      row ::= (N <h>) | (A <h> i<pos> <hv>) | (E <h> <h>)
      h   ::= (C i<task> (<hv>*) <hv> (<h>*))
      hv  ::= i<int> | (Hi i<name> i<key>) | (Hf i<name> i<key> <hv>) | (Ha i<name> i<task> <hv> i<int>)   -/
@@ -89,7 +90,13 @@ def step (_ : Unit) (line : String) : Unit × String :=
     match tblOf tb, natA n, intA a with
     | some tbl, some n, some a =>
       match evalC (tableProg tbl) 200 (.call n (.lit (.int a))) with
-      | some (v, ks) => ((), (if dupInL (tableProg tbl) ks then "dup " else "") ++ reply v (rowsL H.le ks))
+      | some (v, ks) =>
+        if dupInL (tableProg tbl) ks then
+          -- equal sub-expressions under one parent: evaluated once (`_pending_expr`), see `evalM`
+          match evalM (tableProg tbl) 200 [] (.call n (.lit (.int a))) with
+          | some (v', ks', _) => ((), "dup " ++ reply v' (rowsL H.le ks'))
+          | none => ((), "fuel")
+        else ((), reply v (rowsL H.le ks))
       | none => ((), "fuel")
     | _, _, _ => ((), "bad-value")
   | some [.atom "handles", rc, .list (.atom "lanes" :: ls), .list (.atom "entries" :: es)] =>
@@ -106,8 +113,12 @@ def step (_ : Unit) (line : String) : Unit × String :=
       let P := tableProg tbl
       match evalC P 200 (.call na (.lit (.int aa))), evalC P 200 (.call nb (.lit (.int ab))) with
       | some (_, ka), some (vb, kb) =>
-        let t := JT.node taskFork [] [] vb true (ka.map (JT.setSeen seen) ++ kb)
-        ((), (if dupInL P (ka ++ kb) then "dup " else "") ++ reply vb (rows H.le t))
+        if dupInL P (ka ++ kb) then
+          match evalM P 200 [] (.call na (.lit (.int aa))), evalM P 200 [] (.call nb (.lit (.int ab))) with
+          | some (_, ka', _), some (vb', kb', _) =>
+            ((), "dup " ++ reply vb' (rows H.le (JT.node taskFork [] [] vb' true (ka'.map (JT.setSeen seen) ++ kb'))))
+          | _, _ => ((), "fuel")
+        else ((), reply vb (rows H.le (JT.node taskFork [] [] vb true (ka.map (JT.setSeen seen) ++ kb))))
       | _, _ => ((), "fuel")
     | _, _, _, _, _, _ => ((), "bad-value")
   | _ => ((), "bad-op")
